@@ -6,6 +6,7 @@
 package probe
 
 import (
+	"bytes"
 	"encoding/base64"
 	"encoding/json"
 	"errors"
@@ -43,7 +44,14 @@ type Spec struct {
 	// DelayMs: the handler takes that long before it does anything (a slow
 	// backend or disk).
 	DelayMs int `json:"delay,omitempty"`
+	// Copy: every body write is an io.Copy from a plain reader (what the
+	// static file server and http.ServeContent do), so that a response
+	// writer's ReadFrom, if it has one, is what receives the bytes.
+	Copy bool `json:"copy,omitempty"`
 }
+
+// plainReader hides every method of the wrapped reader but Read.
+type plainReader struct{ io.Reader }
 
 // Encode renders the header value.
 func (s Spec) Encode() string {
@@ -189,7 +197,13 @@ func (h handler) ServeHTTP(w http.ResponseWriter, r *http.Request) (int, error) 
 			if end > len(body) {
 				end = len(body)
 			}
-			if _, err := w.Write(body[off:end]); err != nil {
+			var err error
+			if s.Copy {
+				_, err = io.Copy(w, plainReader{bytes.NewReader(body[off:end])})
+			} else {
+				_, err = w.Write(body[off:end])
+			}
+			if err != nil {
 				mu.Lock()
 				obs.WriteErrs = append(obs.WriteErrs, err.Error())
 				mu.Unlock()
